@@ -239,7 +239,7 @@ def gen_program(rng, idx, wild_p=0.25, n_ifaces=None, with_ce=None, replies_p=0.
         for _ in range(rng.randint(1, 3)):
             k = rng.choice(["exec", "exec", "query", "sudo"])
             nm = fresh_name(rng, fn_names, used_wire[k], wild_p)
-            ret = "resp" if k != "query" else "echo"
+            ret = "resp" if k != "query" else rng.choice(["echo", "echo", "respb", "respc", "respb_explicit"])
             ms.append({"name": nm, "msg": {"kind": k}, "args": gen_args(rng), "ret_kind": ret, "ret_err": "self"})
         ifaces.append({"module": "ifc%d" % i, "name": "Ifc%d" % i, "methods": ms,
                        "alias": ("Alias%d" % i) if rng.random() < 0.3 else None})
@@ -259,7 +259,7 @@ def gen_program(rng, idx, wild_p=0.25, n_ifaces=None, with_ce=None, replies_p=0.
         if nm is None:
             nm = fresh_name(rng, fn_names, used_wire[k], wild_p)
         args = gen_args(rng)
-        cms.append({"name": nm, "msg": {"kind": k}, "args": args, "ret_kind": "resp" if k != "query" else "echo",
+        cms.append({"name": nm, "msg": {"kind": k}, "args": args, "ret_kind": "resp" if k != "query" else rng.choice(["echo", "echo", "respb", "respc", "respb_explicit"]),
                     "ret_err": rng.choice(["std", "ce"]) if ce else "std"})
     if rng.random() < 0.5:
         cms.append({"name": "mig_rate", "msg": {"kind": "migrate"}, "args": gen_args(rng, 2), "ret_kind": "resp",
@@ -298,8 +298,16 @@ def err_ty_text(m, contract):
     return "StdError"
 
 
+RESP_TYPES = {"echo": "EchoResp", "respb": "RespB", "respc": "RespC", "respb_explicit": "RespB"}
+
+
 def ret_ty(m, contract):
-    inner = {"p": [["Response", []]]} if m["ret_kind"] == "resp" else {"p": [["EchoResp", []]]}
+    inner = {"p": [["Response", []]]} if m["ret_kind"] == "resp" else {"p": [[RESP_TYPES[m["ret_kind"]], []]]}
+    if m["ret_kind"] == "respb_explicit":
+        # an aliased result type: the response type has to be named in the attribute
+        m["msg"]["resp"] = "RespB"
+        e = {"self": {"p": [["Self", []], ["Error", []]]}, "ce": {"p": [["ContractError", []]]}, "std": {"p": [["StdError", []]]}}[m["ret_err"]]
+        return {"p": [["QResultB", [e]]]}
     if m["ret_err"] == "self":
         return {"p": [["Result", [inner, {"p": [["Self", []], ["Error", []]]}]]]}
     if m["ret_err"] == "ce":
@@ -348,7 +356,7 @@ def handler_body(part, m):
         lines.append('ctx.deps.storage.set(b"ran", b"%s");' % hid)
         lines.append("Ok(resp_of(attrs))")
     else:
-        lines.append("Ok(EchoResp { attrs })")
+        lines.append("Ok(%s::from(attrs))" % RESP_TYPES[m["ret_kind"]])
     return " ".join(lines)
 
 
@@ -475,6 +483,18 @@ def render_run(prog):
         A('                "%s" => { let ls: Vec<Vec<&str>> = vec![%s]; ls.iter().map(|l| l.join(",")).collect::<Vec<_>>().join("|") }' % (k, calls))
     A('                _ => "bad-op".into(),')
     A("            },")
+    # ---- qresp <part|w>, anyof <kind>
+    A('            "qresp" => match rest {')
+    for idx, svp, label, methods in parts:
+        A('                "%d" => show_schemas(<%s::QueryMsg as sylvia::cw_schema::QueryResponses>::response_schemas()),' % (idx, svp))
+    A('                "w" => show_schemas(<sv::ContractQueryMsg as sylvia::cw_schema::QueryResponses>::response_schemas()),')
+    A('                _ => "bad-op".into(),')
+    A("            },")
+    A('            "anyof" => match rest {')
+    for k in ("exec", "query", "sudo"):
+        A('                "%s" => show_any_of(sylvia::schemars::schema_for!(sv::%s)),' % (k, WRAP_TY[k]))
+    A('                _ => "bad-op".into(),')
+    A("            },")
     # ---- disp / entry <kind> <ctx..> <json>
     for opname in ("disp", "entry"):
         A('            "%s" => {' % opname)
@@ -531,11 +551,132 @@ def render_run(prog):
     A('                    _ => "bad-op".into(),')
     A("                }")
     A("            }")
+    L.extend(render_helper_ops(prog))
     L.extend(render_reply_ops(prog))
     A('            _ => "bad-op".into(),')
     A("        }")
     A("    }")
     return "\n".join(L)
+
+
+def render_helper_ops(prog):
+    """remote helpers: executor / querier obtained from a Remote handle, the instantiate builder, the admin helpers"""
+    parts = part_paths(prog)
+    ct = prog["contract"]
+    err = "ContractError" if ct.get("error") else "StdError"
+    L = []
+    A = L.append
+    # ---- xh <part> <via> <method> <addrhex> <amount> <fail> <sender> <height> <seed> <json args>
+    A('            "xh" => {')
+    A("                let f: Vec<&str> = rest.splitn(10, ' ').collect();")
+    A('                if f.len() < 10 { return "bad-op".into(); }')
+    A("                let addr = Addr::unchecked(String::from_utf8_lossy(&unhex(f[3])).to_string());")
+    A('                let funds = if f[4] == "0" { vec![] } else { vec![Coin::new(f[4].parse::<u128>().unwrap_or(0), "utok")] };')
+    A("                let c = Ctx { fail: f[5].to_string(), sender: f[6].to_string(), amount: f[4].parse().unwrap_or(0), height: f[7].parse().unwrap_or(1), seed: f[8].to_string() };")
+    A("                let json = f[9];")
+    A("                let built: Result<WasmMsg, String> = match (f[0], f[1], f[2]) {")
+    for idx, svp, label, methods in parts:
+        for m in methods:
+            if m["msg"]["kind"] != "exec":
+                continue
+            tys = [gen.ty_text(a["ty"], " ") for a in m["args"]]
+            tup = "(%s)" % "".join(t + ", " for t in tys)
+            cname = casing.cc_snake(casing.upper_camel(m["name"]))
+            vias = [("ct", "Ct")] + ([("dyn", "dyn %s::%s<Error = %s>" % (prog["ifaces"][idx]["module"], prog["ifaces"][idx]["name"], err))] if svp != "sv" else [])
+            for via, ty in vias:
+                call = "<ExecutorBuilder<(EmptyExecutorBuilderState, %s)> as %s::Executor>::%s(Remote::<%s>::new(addr.clone()).executor().with_funds(funds.clone())%s)" % (
+                    ty, svp, cname, ty, "".join(", a.%d.clone()" % i for i in range(len(tys))))
+                if tys:
+                    A('                    ("%d", "%s", "%s") => match from_json::<%s>(json.as_bytes()) { Ok(a) => %s.map(|b| b.build()).map_err(|e| e.to_string()), Err(_) => Err("bad-args".into()) },' % (idx, via, m["name"], tup, call))
+                else:
+                    A('                    ("%d", "%s", "%s") => %s.map(|b| b.build()).map_err(|e| e.to_string()),' % (idx, via, m["name"], call))
+    A('                    _ => Err("bad-op".into()),')
+    A("                };")
+    A("                match built {")
+    A('                    Err(e) => format!("err {}", e),')
+    A("                    Ok(msg) => {")
+    A("                        let shown = show_wasm(&msg);")
+    A("                        let body = match &msg { WasmMsg::Execute { msg, .. } => msg.to_vec(), _ => vec![] };")
+    A("                        let mut deps = c.deps();")
+    A("                        let res = match from_json::<sv::ContractExecMsg>(&body) {")
+    A('                            Err(e) => format!("de-{}", show_wrapper_err(&e)),')
+    A("                            Ok(m) => { let r = entry_points::execute(deps.as_mut(), c.env(), c.info(), m); show_resp(r, &deps.storage) }")
+    A("                        };")
+    A('                        format!("{} => {}", shown, res)')
+    A("                    }")
+    A("                }")
+    A("            }")
+    # ---- qh <part> <via> <method> <addrhex> <height> <seed> <json args>
+    A('            "qh" => {')
+    A("                let f: Vec<&str> = rest.splitn(7, ' ').collect();")
+    A('                if f.len() < 7 { return "bad-op".into(); }')
+    A("                let addr = Addr::unchecked(String::from_utf8_lossy(&unhex(f[3])).to_string());")
+    A('                let c = Ctx { fail: "-".into(), sender: "s".into(), amount: 0, height: f[4].parse().unwrap_or(1), seed: f[5].to_string() };')
+    A("                let json = f[6];")
+    A("                let mut outer = mock_dependencies();")
+    A("                let (h, sd) = (c.height, c.seed.clone());")
+    A("                outer.querier.update_wasm(move |q| match q {")
+    A("                    sylvia::cw_std::WasmQuery::Smart { contract_addr, msg } => {")
+    A('                        SEEN_QUERY.with(|s| *s.borrow_mut() = format!("addr={} body={}", contract_addr, String::from_utf8_lossy(msg.as_slice())));')
+    A('                        let c2 = Ctx { fail: "-".into(), sender: "s".into(), amount: 0, height: h, seed: sd.clone() };')
+    A("                        let deps = c2.deps();")
+    A("                        match from_json::<sv::ContractQueryMsg>(msg.as_slice()) {")
+    A("                            Ok(m) => match entry_points::query(deps.as_ref(), c2.env(), m) {")
+    A("                                Ok(b) => sylvia::cw_std::SystemResult::Ok(sylvia::cw_std::ContractResult::Ok(b)),")
+    A("                                Err(e) => sylvia::cw_std::SystemResult::Ok(sylvia::cw_std::ContractResult::Err(e.to_string())),")
+    A("                            },")
+    A('                            Err(e) => sylvia::cw_std::SystemResult::Ok(sylvia::cw_std::ContractResult::Err(format!("de-{}", show_wrapper_err(&e)))),')
+    A("                        }")
+    A("                    }")
+    A('                    _ => sylvia::cw_std::SystemResult::Err(sylvia::cw_std::SystemError::Unknown {}),')
+    A("                });")
+    A("                let wrapper = sylvia::cw_std::QuerierWrapper::<Empty>::new(&outer.querier);")
+    A("                SEEN_QUERY.with(|s| s.borrow_mut().clear());")
+    A("                let res: Result<String, String> = match (f[0], f[1], f[2]) {")
+    for idx, svp, label, methods in parts:
+        for m in methods:
+            if m["msg"]["kind"] != "query":
+                continue
+            tys = [gen.ty_text(a["ty"], " ") for a in m["args"]]
+            tup = "(%s)" % "".join(t + ", " for t in tys)
+            cname = casing.cc_snake(casing.upper_camel(m["name"]))
+            vias = [("ct", "Ct")] + ([("dyn", "dyn %s::%s<Error = %s>" % (prog["ifaces"][idx]["module"], prog["ifaces"][idx]["name"], err))] if svp != "sv" else [])
+            for via, ty in vias:
+                call = "<BoundQuerier<'_, Empty, %s> as %s::Querier>::%s(&BoundQuerier::<Empty, %s>::borrowed(&addr, &wrapper)%s)" % (
+                    ty, svp, cname, ty, "".join(", a.%d.clone()" % i for i in range(len(tys))))
+                if tys:
+                    A('                    ("%d", "%s", "%s") => match from_json::<%s>(json.as_bytes()) { Ok(a) => %s.map(|r| j(&r)).map_err(|e| e.to_string()), Err(_) => Err("bad-args".into()) },' % (idx, via, m["name"], tup, call))
+                else:
+                    A('                    ("%d", "%s", "%s") => %s.map(|r| j(&r)).map_err(|e| e.to_string()),' % (idx, via, m["name"], call))
+    A('                    _ => Err("bad-op".into()),')
+    A("                };")
+    A("                let seen = SEEN_QUERY.with(|s| s.borrow().clone());")
+    A('                match res { Ok(r) => format!("{} => ok {}", seen, r), Err(e) => format!("{} => err {}", seen, e) }')
+    A("            }")
+    # ---- ib <code_id> <setters> <json args>
+    inst = [m for m in ct["methods"] if m["msg"]["kind"] == "instantiate"][0]
+    tys = [gen.ty_text(a["ty"], " ") for a in inst["args"]]
+    tup = "(%s)" % "".join(t + ", " for t in tys)
+    A('            "ib" => {')
+    A("                let f: Vec<&str> = rest.splitn(3, ' ').collect();")
+    A('                if f.len() < 3 { return "bad-op".into(); }')
+    A("                let code: u64 = f[0].parse().unwrap_or(0);")
+    call = "<InstantiateBuilder as sv::CtInstantiateBuilder>::ct(code%s)" % "".join(", a.%d.clone()" % i for i in range(len(tys)))
+    if tys:
+        A("                let b = match from_json::<%s>(f[2].as_bytes()) { Ok(a) => %s, Err(_) => return \"bad-args\".into() };" % (tup, call))
+    else:
+        A("                let b = %s;" % call)
+    A('                match b { Err(e) => format!("err {}", e), Ok(b) => { let (b, salt) = apply_setters(b, f[1]); match salt { Some(s) => show_wasm(&b.build2(Binary::from(s))), None => show_wasm(&b.build()) } } }')
+    A("            }")
+    A('            "adm" => {')
+    A("                let f: Vec<&str> = rest.splitn(2, ' ').collect();")
+    A("                let addr = Addr::unchecked(String::from_utf8_lossy(&unhex(f[0])).to_string());")
+    A("                let r = Remote::<Ct>::new(addr.clone());")
+    A("                let r2 = Remote::<Ct>::borrowed(&addr);")
+    A('                if f.len() < 2 || f[1] == "-" { format!("{} | {}", show_wasm(&r.clear_admin()), show_wasm(&r2.clear_admin())) }')
+    A('                else { let n = String::from_utf8_lossy(&unhex(f[1])).to_string(); format!("{} | {}", show_wasm(&r.update_admin(&n)), show_wasm(&r2.update_admin(&n))) }')
+    A("            }")
+    return L
 
 
 def entry_payload(e):
